@@ -5,7 +5,7 @@ set -u
 cd "$(dirname "$0")/.."
 seeds=("$@"); [ ${#seeds[@]} -eq 0 ] && seeds=(seeded/*/)
 run_one() {
-  d=${1%/}; id=$(basename "$d"); prop=$(jq -r .property "$d/meta.json")
+  d=$(cd "${1%/}" && pwd); id=$(basename "$d"); prop=$(jq -r .property "$d/meta.json")
   wt=/tmp/seedmx-$id-$$
   git -C /repo worktree add -q --detach "$wt" HEAD || { echo -e "$id\t$prop\tERR\tworktree"; return; }
   if ! git -C "$wt" apply "$d/patch.diff" 2>/dev/null; then echo -e "$id\t$prop\tERR\tpatch does not apply"; git -C /repo worktree remove --force "$wt"; return; fi
@@ -17,5 +17,5 @@ run_one() {
   git -C /repo worktree remove --force "$wt" >/dev/null 2>&1; rm -rf "$wt" "$rp"
 }
 export -f run_one
-printf '%s\n' "${seeds[@]}" | xargs -P "${SEED_JOBS:-4}" -I{} bash -c 'run_one {}' | sort > seeded/RESULTS.tsv
-awk -F'\t' '{t++; if ($3==1) c++} END {printf "caught %d of %d\n", c, t}' seeded/RESULTS.tsv
+printf '%s\n' "${seeds[@]}" | xargs -P "${SEED_JOBS:-4}" -I{} bash -c 'run_one {}' | sort > "${SEED_OUT:-seeded/RESULTS.tsv}"
+awk -F'\t' '{t++; if ($3==1) c++} END {printf "caught %d of %d\n", c, t}' "${SEED_OUT:-seeded/RESULTS.tsv}"
